@@ -481,6 +481,23 @@ func itemByName(items []evalgen.SpecItem, name string) (evalgen.SpecItem, bool) 
 	return evalgen.SpecItem{}, false
 }
 
+// nullsExplain: the loss of the mark at this stage disappears when the nulls inside the two contents of the
+// marked variable are replaced by non-null values of the same types — the recorded go-cty behaviour (a
+// conversion drops the marks of a null) seen through whichever decoding stage it surfaces at.
+func nullsExplain(b *evalgen.BodyCase, name string, am, bm cty.Value, stage string) bool {
+	da, ca := denull(am)
+	db, cb := denull(bm)
+	if !ca && !cb {
+		return false
+	}
+	oa, okA := observe(b, with(b.Scope, name, da))[stage]
+	ob, okB := observe(b, with(b.Scope, name, db))[stage]
+	if !okA || !okB || oa.pan != "" || ob.pan != "" {
+		return false
+	}
+	return judge(oa.val, ob.val, oa.diags, ob.diags) != vLost
+}
+
 func checkBody(cx *lib.Ctx, b *evalgen.BodyCase, name string, am, bm cty.Value, only string) {
 	res := cx.Res
 	oa := observe(b, with(b.Scope, name, am))
@@ -532,7 +549,7 @@ func checkBody(cx *lib.Ctx, b *evalgen.BodyCase, name string, am, bm cty.Value, 
 			key := "mark-lost:hcldec:" + it.Kind
 			if zeroBlocks(a, bb) {
 				key = "mark-lost:dynblock-zero-blocks:" + it.Kind
-			} else if markedNull(am) || markedNull(bm) {
+			} else if markedNull(am) || markedNull(bm) || nullsExplain(b, name, am, bm, k) {
 				key = "mark-lost:hcldec:marked-null"
 			}
 			losts = append(losts, lost{k, key, impl})
@@ -543,7 +560,7 @@ func checkBody(cx *lib.Ctx, b *evalgen.BodyCase, name string, am, bm cty.Value, 
 			key := "mark-lost:dynblock-partialcontent-remain"
 			if zeroBlocks(a, bb) {
 				key = "mark-lost:dynblock-zero-blocks:staged-remain"
-			} else if markedNull(am) || markedNull(bm) {
+			} else if markedNull(am) || markedNull(bm) || nullsExplain(b, name, am, bm, k) {
 				key = "mark-lost:hcldec:marked-null"
 			}
 			losts = append(losts, lost{k, key, impl})
@@ -554,7 +571,7 @@ func checkBody(cx *lib.Ctx, b *evalgen.BodyCase, name string, am, bm cty.Value, 
 			key := "mark-lost:staged-partial-decode"
 			if zeroBlocks(a, bb) {
 				key = "mark-lost:dynblock-zero-blocks:staged-first"
-			} else if markedNull(am) || markedNull(bm) {
+			} else if markedNull(am) || markedNull(bm) || nullsExplain(b, name, am, bm, k) {
 				key = "mark-lost:hcldec:marked-null"
 			}
 			losts = append(losts, lost{k, key, impl})
@@ -566,7 +583,7 @@ func checkBody(cx *lib.Ctx, b *evalgen.BodyCase, name string, am, bm cty.Value, 
 			key := "mark-lost:hcldec:whole-body"
 			if zeroBlocks(a, bb) {
 				key = "mark-lost:dynblock-zero-blocks:whole-body"
-			} else if markedNull(am) || markedNull(bm) {
+			} else if markedNull(am) || markedNull(bm) || nullsExplain(b, name, am, bm, k) {
 				key = "mark-lost:hcldec:marked-null"
 			}
 			losts = append(losts, lost{k, key, impl})
